@@ -1,10 +1,13 @@
 #!/bin/bash
-# usage: lib/mutants.sh <prop> <patchfile>...   applies each patch to /repo, runs the quick check, reverts.
+# usage: lib/mutants.sh <prop> <patchfile>...
+# Applies each patch to a SCRATCH worktree of /repo (never to /repo itself), runs the
+# quick check against it (VERIF_REPO), removes the worktree.  Safe to run concurrently.
 prop=$1; shift
 for p0 in "$@"; do p=$(realpath "$p0")
-  if ! git -C /repo apply --check "$p" 2>/dev/null; then echo "MUTANT $p: patch does not apply"; continue; fi
-  git -C /repo apply "$p"
-  out=$(cd /verif && ./check $prop 2>&1 | grep -E "^VIOLATION|: ok|: VIOLATION" | head -3)
-  git -C /repo checkout -- .
-  echo "MUTANT $(basename $p): $out" | tr '\n' ' '; echo
+  wt=/var/tmp/mut-$$-$RANDOM
+  git -C /repo worktree add -q --detach $wt HEAD || { echo "MUTANT $p0: cannot create worktree"; continue; }
+  if ! git -C $wt apply "$p" 2>/dev/null; then echo "MUTANT $(basename $(dirname $p))/$(basename $p): patch does not apply"; git -C /repo worktree remove --force $wt; continue; fi
+  out=$(cd /verif && VERIF_REPO=$wt VERIF_NO_EVIDENCE=1 ./check $prop 2>&1 | grep -E "^VIOLATION|: ok|: VIOLATION" | head -3)
+  git -C /repo worktree remove --force $wt; git -C /repo worktree prune
+  echo "MUTANT $(basename $(dirname $p))/$(basename $p): $out" | tr '\n' ' '; echo
 done
